@@ -282,13 +282,7 @@ def check_C20(ctx):
         for name in names:
             def one(name=name):
                 dag = accessor_dag(ctx, name)
-                deps = set()
-                bvz = BitVec(pdb)
-                # dependencies of every condition and scalar leaf of the result
-                for x in walk(dag):
-                    if x[0] in ("bin", "un", "cast", "idx", "call") and ty_of(x) in INT_BITS:
-                        for b in bvz.bv(x):
-                            b_deps(b, deps)
+                deps = result_deps(pdb, dag)
                 bad = sorted(i for (a_, i) in deps if i >= 29)
                 rep.ob("C20.independent", name, not bad, "%s depends on mark bit(s) %s of the word" % (name, bad), pdb.where(self_u32(ctx, name)[0]))
             ctx.guard("C20.independent." + name, one)
@@ -337,6 +331,45 @@ def check_C20(ctx):
         rep.floor("C20.fold", cnt, 416)
         rep.sample({"rule": "C20.fold", "cards": 52, "mark_combinations": 8, "example": "ACE_SPADES|PAIR = %#x" % (cards["ACE_SPADES"] | 1 << 29)})
     ctx.guard("C20.fold", fold)
+
+
+def result_deps(pdb, dag):
+    """Input bits the *result* can depend on: bit formulas of integer results and of every branch condition that
+    selects a result (intermediate values that are masked away afterwards do not count)."""
+    bvz = BitVec(pdb)
+    deps = set()
+    seen = set()
+
+    def go(x):
+        if id(x) in seen:
+            return
+        seen.add(id(x))
+        k = x[0]
+        if k == "agg":
+            for f in x[2]:
+                go(f)
+            return
+        if k == "ite":
+            go(x[1])
+            go(x[2])
+            go(x[3])
+            return
+        t = ty_of(x)
+        if t in INT_BITS and k in ("bin", "un", "cast", "atom", "c", "idx", "call"):
+            try:
+                for b in bvz.bv(x):
+                    b_deps(b, deps)
+                return
+            except Uncertified:
+                pass
+        for ch in children(x):
+            go(ch)
+        if k == "atom":
+            w = INT_BITS.get(x[2], 0)
+            for i in range(w):
+                deps.add((x[1], i))
+    go(dag)
+    return deps
 
 
 # -------------------------------------------------------------------------------------------------
